@@ -253,6 +253,9 @@ def decode(j):
     if 'NextPosFn' in j:
         import gym_gridverse.envs.visibility_functions as vf
         return getattr(vf, j['NextPosFn'])
+    if 'ObjEncoder' in j:
+        import numpy as np
+        return lambda o: np.array([o.type_index() * 7 + 1, o.state_index + 2, o.color.value * 3])
     if 'ObjPred' in j:
         import pyvc_rt
         allowed = [decode(x) for x in j['ObjPred']]
@@ -416,6 +419,8 @@ def rand_input(sort, r, ctx=None):
         return {sort: [[r.randint(0, 3) for _ in range(w)] for _ in range(h)], 'shape': [h, w]}
     if sort == 'NextPosFn':
         return {'NextPosFn': '_partially_occluded_next_positions_front_' + r.choice(['left', 'right'])}
+    if sort == 'ObjEncoder':
+        return {'ObjEncoder': 'affine-triple'}
     if sort == 'ObjPred':
         # a type/colour space: flat objects of some classes and colours (+ open variant of every door), boxes of them
         classes = r.sample(['NoneGridObject', 'Hidden', 'Floor', 'Wall', 'Exit', 'Door', 'Key', 'MovingObstacle',
